@@ -330,15 +330,5 @@ theorem canonical_eq_iff_iso {a b : DSymData} (ha : ValidSym a) (hb : ValidSym b
   · rintro ⟨f, iso⟩
     exact (canonical_eq_of_iso ha hsa iso gooda deta).symm
 
-/-! ### connectedness (for the statements of the open obligations) -/
-
-/-- `e` is reachable from `d` by the operations of the D-set -/
-inductive Reach (s : DSetData) : Nat → Nat → Prop
-  | refl (d : Nat) : Reach s d d
-  | step {d e : Nat} (i : Nat) : i ≤ s.dim → Reach s d e → Reach s d (s.opU i e)
-
-/-- every chamber is reachable from chamber 1 -/
-def Connected (s : DSymData) : Prop := ∀ d, 1 ≤ d → d ≤ s.size → Reach s.dset 1 d
-
 end CanonP
 end DSymVerif.DS
